@@ -109,7 +109,13 @@ def make_fn(rec):
         rec.prefix = (77,)
         return functools.partial(rec.invoke, 77)
     if rec.kind == 3:
-        return CallableObject(rec)
+        obj = CallableObject(rec)
+        if getattr(rec, "attrs", False):
+            # a decorator-style callable object carrying attributes a wrapper might also use
+            obj._fn = obj.fn = obj._BoundCallable__fn_ = (lambda *a, **k: "WRONG-FUNCTION")
+            obj._executor = obj.executor = None
+            obj._name = "from-callable"
+        return obj
 
     def fn(*args, **kwargs):
         return rec.invoke(*args, **kwargs)
@@ -221,6 +227,7 @@ def build(p):
 
         def run_form(form):
             rec = Recorder(form, subs, kind)
+            rec.attrs = bool(p.get("attrs"))
             fn = make_fn(rec)
             created = []
             kw = {"name": NAMES[basename]} if basename else {}
